@@ -16,11 +16,10 @@ Proof. unfold fmt_key. rewrite lower_idem. reflexivity. Qed.
 Theorem fmt_key_same_lower s1 s2 : lower s1 = lower s2 -> fmt_key s1 = fmt_key s2.
 Proof. unfold fmt_key. intros ->. reflexivity. Qed.
 (* the regenerated registry: each of the three formats is found by its own name and by its own extension; fmt wins over the
-   extension; an extension in another spelling is no extension of a feature format *)
+   extension *)
 Theorem dispatch_names : forall f,
   fmt_key (fmt_name f) = Some f /\ resolve_w None (fmt_name f) = inl f /\
-  (forall e, resolve_w (Some (fmt_name f)) e = inl f) /\
-  resolve_w None (map (fun c => match c with "g" => "G" | "t" => "T" | "c" => "C" | _ => c end%byte) (fmt_name f)) = inr (bs "OSError"%bs).
+  (forall e, resolve_w (Some (fmt_name f)) e = inl f).
 Proof. intros f; destruct f; vm_compute; repeat split; reflexivity. Qed.
 Lemma default_sep_ok f : sep_ok (default_sep f) = true.
 Proof. destruct f; reflexivity. Qed.
